@@ -66,9 +66,19 @@ def run_native_crate(scr, crate, unit_names, infos, tier, prop, logdir, seed, en
         env.update(env_extra)
     cmd = ['cargo', 'test', '-p', crate, '--lib', '--offline', '--', '__verif_n_', '--nocapture', '--test-threads', '8']
     t0 = time.time()
+    # memory guard: a real-code path that allocates without bound must abort this test process, not
+    # take the machine down (the unit is then reported UNDECIDED: no VERIF-N line)
+    mem_gb = int(os.environ.get('VERIF_MEM_GB', '24'))
+
+    def _limit():
+        import resource
+        try:
+            resource.setrlimit(resource.RLIMIT_AS, (mem_gb << 30, mem_gb << 30))
+        except (ValueError, OSError):
+            pass
     try:
         p = subprocess.run(cmd, cwd=scr.path, env=env, stdout=subprocess.PIPE, stderr=subprocess.STDOUT, text=True,
-                           timeout=3600 if tier == 'quick' else 4 * 3600)
+                           timeout=3600 if tier == 'quick' else 4 * 3600, preexec_fn=_limit)
         out = p.stdout
     except subprocess.TimeoutExpired as e:
         out = e.stdout.decode() if isinstance(e.stdout, bytes) else (e.stdout or '')
